@@ -1605,3 +1605,260 @@ var _ = late(func() {
 	properties["C19"].Rules = append(properties["C19"].Rules,
 		&Rule{ID: "C19.sort-wrappers", Floor: 3, Clause: "xsort.Slice, SliceStable and SliceIsSorted are the functions of package sort of the same name applied to x and the index adapter less(x[i], x[j]) (their documentation: 'follows the same rules as sort.…'): a hand-written loop has to re-decide ties - `!less(x[i-1], x[i])` calls a slice with equal neighbours unsorted", Run: ruleSortWrappers})
 })
+
+// C07.collect-drains (seed C07-r11m2): iterator.Collect "advances iter to the end". A shortcut that copies the items out of a
+// known iterator type without pulling them (`if s, ok := iter.(*sliceIterator[T]); ok { return append([]T(nil), s.a...) }`)
+// hands back the right slice and leaves the iterator where it was: a later Next, a second Collect or a Join over the same
+// object yields the items again. Typestate: every return of Collect / Reduce has seen the source exhausted - Next answered
+// false - or has handed the iterator to a reducer of the package that drains it.
+func ruleCollectDrains(c *Ctx, r *R) {
+	for _, name := range []string{"iterator.Collect", "iterator.Reduce"} {
+		fn := c.fn(name)
+		if fn == nil || len(fn.Params) == 0 {
+			r.undecided(name+"|missing", token.NoPos, "anchor not found")
+			continue
+		}
+		iterP := fn.Params[0]
+		isIter := func(v ssa.Value) bool {
+			for _, lf := range valueLeaves(v, nil, 0) {
+				if resolveVal(lf.v) != ssa.Value(iterP) {
+					return false
+				}
+			}
+			return true
+		}
+		pf := &PF{N: 2}
+		pf.Instr = func(_ *ssa.Function, in ssa.Instruction, q int) (StateSet, bool) {
+			call, ok := in.(*ssa.Call)
+			if !ok || call.Call.IsInvoke() {
+				return 0, false
+			}
+			cal := staticCallee(&call.Call)
+			if cal == nil || cal.Blocks == nil || rootFn(origin(cal)).Pkg != rootFn(fn).Pkg || origin(cal) == fn {
+				return 0, false
+			}
+			// handed on to a reducer of the package (Collect -> Reduce): drained there (that function's own obligation)
+			if len(call.Call.Args) > 0 && isIter(call.Call.Args[0]) {
+				switch fname(cal) {
+				case "Reduce", "Collect", "Last":
+					return ss(1), true
+				}
+			}
+			return 0, false
+		}
+		pf.Edge = func(_ *ssa.Function, g guard, q int) (StateSet, bool) {
+			v, val := g.boolVal()
+			if val {
+				return 0, false
+			}
+			isOkOfNext := func(x ssa.Value) bool {
+				ex, ok := x.(*ssa.Extract)
+				if !ok || ex.Index != 1 {
+					return false
+				}
+				nx, ok := ex.Tuple.(*ssa.Call)
+				return ok && nx.Call.IsInvoke() && nx.Call.Method.Name() == "Next" && isIter(nx.Call.Value)
+			}
+			if isOkOfNext(v) {
+				return ss(1), true
+			}
+			// for item, ok := it.Next(); ok; item, ok = it.Next(): the condition tests a merge of two pulls' ok
+			if phi, isPhi := v.(*ssa.Phi); isPhi && len(phi.Edges) > 0 {
+				for _, e := range phi.Edges {
+					if !isOkOfNext(e) {
+						return 0, false
+					}
+				}
+				return ss(1), true
+			}
+			return 0, false
+		}
+		n := 0
+		for _, e := range pf.Exits(fn, ss(0)) {
+			n++
+			r.ok(e.States == ss(1), name+"|drains#"+itoa(n), retPos(e.Ret), funcShort(fn)+" returns on a path on which the iterator was not advanced to its end (Next has not answered false, and it was not handed to a reducer that drains it): the items are handed out while the iterator still holds them - a later Next or a second Collect yields them again")
+		}
+		if n == 0 {
+			r.undecided(name+"|returns", fn.Pos(), "no return found")
+		}
+	}
+}
+
+var _ = late(func() {
+	properties["C07"].Rules = append(properties["C07"].Rules,
+		&Rule{ID: "C07.collect-drains", Floor: 2, Clause: "every return of iterator.Collect and iterator.Reduce follows the exhaustion of the iterator (its Next answered false) or a call that hands it to a reducer of the package: 'advances iter to the end' - no shortcut that copies the items out of a known iterator type without pulling them", Run: ruleCollectDrains})
+})
+
+// C03.cmp-constructors-direct (seed C03-r11m1): NewMapCmp / NewSetCmp are handed a three-way comparison; the tree asks it once
+// per key it looks at. Routed through NewMap / NewSet (`NewSet(func(a, b T) bool { return compare(a, b) < 0 })`) it becomes a
+// less function that is turned back into a comparison by calling it twice: every probe that does not come out "smaller" costs
+// two calls of the user's function - up to 30 per node instead of 15. The comparison the tree is built with is the parameter.
+func ruleCmpConstructorsDirect(c *Ctx, r *R) {
+	for _, name := range []string{"container/tree.NewMapCmp", "container/tree.NewSetCmp"} {
+		fn := c.fn(name)
+		if fn == nil || len(fn.Params) == 0 {
+			r.undecided(name+"|missing", token.NoPos, "anchor not found")
+			continue
+		}
+		cmpP := fn.Params[0]
+		direct, n := true, 0
+		for _, d := range deepInstrs(fn, 2) {
+			call, ok := d.in.(*ssa.Call)
+			if !ok {
+				continue
+			}
+			cal := staticCallee(&call.Call)
+			if cal == nil || fname(cal) != "newBtree" || len(call.Call.Args) == 0 {
+				continue
+			}
+			n++
+			for _, lf := range valueLeaves(call.Call.Args[0], d.calls, 0) {
+				if resolveVal(lf.v) != ssa.Value(cmpP) {
+					direct = false
+				}
+			}
+		}
+		r.ok(direct && n == 1, name+"|compare-handed-on", fn.Pos(), funcShort(fn)+" must build the tree with the comparison it was given: wrapped into a less function (and turned back into a comparison by two calls of it) every key probe that is not 'smaller' costs two comparisons - up to 30 per node on a search path, where at most 15 are allowed")
+	}
+}
+
+var _ = late(func() {
+	properties["C03"].Rules = append(properties["C03"].Rules,
+		&Rule{ID: "C03.cmp-constructors-direct", Floor: 2, Clause: "NewMapCmp and NewSetCmp hand the three-way comparison they are given to newBtree itself: a detour through a less function doubles the comparisons of every probe that is not 'smaller' (more than 15 per level)", Run: ruleCmpConstructorsDirect})
+})
+
+// Seed round 11: C14.prefill-full - the rule existed under C10 (every channel operation of a function that takes a context).
+var _ = late(func() {
+	properties["C14"].Rules = append(properties["C14"].Rules,
+		&Rule{ID: "C14.prefill-full", Floor: 1, Clause: "same rule as C10.ctx-arm restricted to MapStream's pre-fill of the token channel: the loop sends exactly as many tokens as the channel's capacity (the same value), which is the buffer size - one token short, a single worker with a buffer of one starts with no token at all: the source is pulled once and nothing is ever yielded", Run: rulePrefillFull})
+})
+
+// C19.chunk-panics-first (seed C19-r11m2): xslices.Chunk "panics if chunkSize <= 0" - through the division by chunkSize (and the
+// negative slice bounds after it), which the divisor rule accepts as the documented panic. That only holds while every return
+// comes after the division: an early `if len(s) == 0 { return [][]T{} }` in front of it hands back an empty result for
+// Chunk(nil, 0) instead of panicking.
+func ruleChunkPanicsFirst(c *Ctx, r *R) {
+	fn := c.fn("xslices.Chunk")
+	if fn == nil || len(fn.Params) < 2 {
+		r.undecided("xslices.Chunk|missing", token.NoPos, "anchor not found")
+		return
+	}
+	sizeP := fn.Params[1]
+	pf := &PF{N: 2}
+	pf.Instr = func(_ *ssa.Function, in ssa.Instruction, q int) (StateSet, bool) {
+		if bin, ok := in.(*ssa.BinOp); ok && (bin.Op == token.QUO || bin.Op == token.REM) && resolveVal(bin.Y) == ssa.Value(sizeP) {
+			return ss(1), true
+		}
+		return 0, false
+	}
+	pf.Edge = func(_ *ssa.Function, g guard, q int) (StateSet, bool) {
+		// an explicit test: the edge on which chunkSize > 0
+		if cf, ok := g.asCmp(); ok && cf.x == ssa.Value(sizeP) && ((cf.op == token.GTR && isConstInt(cf.y, 0)) || (cf.op == token.GEQ && isConstInt(cf.y, 1))) {
+			return ss(1), true
+		}
+		return 0, false
+	}
+	n := 0
+	for _, e := range pf.Exits(fn, ss(0)) {
+		n++
+		r.ok(e.States == ss(1), "xslices.Chunk|return#"+itoa(n), retPos(e.Ret), "Chunk returns on a path that has neither divided by chunkSize nor tested it: for chunkSize <= 0 that path hands back a result where the documentation promises a panic")
+	}
+	if n == 0 {
+		r.undecided("xslices.Chunk|returns", fn.Pos(), "no return found")
+	}
+}
+
+var _ = late(func() {
+	properties["C19"].Rules = append(properties["C19"].Rules,
+		&Rule{ID: "C19.chunk-panics-first", Floor: 1, Clause: "every return of xslices.Chunk comes after the division by chunkSize (the documented panic for chunkSize <= 0) or after an explicit test of it: no early return for an empty input in front of it", Run: ruleChunkPanicsFirst})
+})
+
+// C08.failed-next-hands-out-nothing (seed C08-r11m1): a Next that fails costs nothing: in particular it does not hand out state
+// the stream still needs. chunkStream.Next returning its partial chunk along with the error looks harmless (callers ignore
+// the value) until a wrapper assigns both results before it tests the error (s.buffer, err = s.inner.Next(ctx) in
+// FlattenSlices): the partial chunk is then emitted by the wrapper AND completed by Chunk - items are duplicated on retry.
+func ruleFailedNextHandsOutNothing(c *Ctx, r *R) {
+	n := 0
+	for _, fn := range c.funcsOfPkg("stream") {
+		if fn.Parent() != nil || fn.Blocks == nil || fn.Name() != "Next" || fn.Signature.Recv() == nil || fn.Signature.Results().Len() != 2 || len(fn.Params) == 0 {
+			continue
+		}
+		recv := fn.Params[0]
+		name := c.nameOf(fn)
+		k := 0
+		instrs(fn, func(b *ssa.BasicBlock, _ int, in ssa.Instruction) {
+			ret, ok := in.(*ssa.Return)
+			if !ok || len(ret.Results) != 2 || b.Comment == "recover" {
+				return
+			}
+			errV := returnedValue(ret, 1)
+			if isNilConst(errV) {
+				return
+			}
+			// the error may be non-nil here unless the block is under err == nil
+			for _, g := range guardsOf(b) {
+				if cf, ok := g.asCmp(); ok && cf.op == token.EQL && isNilConst(cf.y) && cf.x == errV {
+					return
+				}
+			}
+			k++
+			n++
+			held := ""
+			for _, lf := range valueLeaves(returnedValue(ret, 0), nil, 0) {
+				ld, ok := lf.v.(*ssa.UnOp)
+				if !ok || ld.Op != token.MUL {
+					continue
+				}
+				if _, base, ok := rootField(ld.X); ok && resolveVal(base) == ssa.Value(recv) {
+					if _, isSlice := ld.Type().Underlying().(*types.Slice); isSlice {
+						held = path(ld)
+					}
+				}
+			}
+			r.ok(held == "", name+"|failed-return#"+itoa(k), retPos(ret), "Next hands out "+held+" - a slice the stream keeps working on - together with an error: a wrapper that stores both results before it tests the error (FlattenSlices) emits those items, and the retried Next delivers them again")
+		})
+	}
+	if n == 0 {
+		r.undecided("stream|failed-returns", token.NoPos, "no failing return of a Next found")
+	}
+}
+
+var _ = late(func() {
+	properties["C08"].Rules = append(properties["C08"].Rules,
+		&Rule{ID: "C08.failed-next-hands-out-nothing", Floor: 20, Clause: "no Next of package stream returns, together with an error that may be non-nil, a slice held in a field of its receiver: a failed Next costs nothing - a partial chunk handed out with the error is emitted by a wrapper that assigns both results before testing the error and delivered again by the retry", Run: ruleFailedNextHandsOutNothing})
+})
+
+func rulePrefillFull(c *Ctx, r *R) {
+	fn := c.fn("parallel.MapStream")
+	if fn == nil {
+		r.undecided("parallel.MapStream|missing", token.NoPos, "anchor not found")
+		return
+	}
+	n := 0
+	for _, fr := range deepFrames(fn, 2) {
+		if fr.f.Parent() != nil {
+			continue // the goroutines: their sends are the hand-overs, not the pre-fill
+		}
+		for _, op := range fr.chanOps() {
+			if op.kind != "send" {
+				continue
+			}
+			n++
+			full := prefillBoundEqualsCap(op)
+			if !full && len(fr.chain) > 0 && len(fr.f.Blocks) == 1 && len(fr.f.Params) > 0 {
+				// t.release() of a channel type (func (t tokens) release() { t <- struct{}{} }) called from the loop: judged at
+				// the call, the channel being the receiver handed in
+				if snd, isSnd := op.in.(*ssa.Send); isSnd && snd.Chan == ssa.Value(fr.f.Params[0]) {
+					site := fr.chain[len(fr.chain)-1]
+					if len(site.Call.Args) > 0 {
+						full = prefillLoopAround(site, site.Call.Args[0])
+					}
+				}
+			}
+			r.ok(full, "parallel.MapStream|prefill#"+itoa(n), posOf(op.in), "the loop that pre-fills the token channel does not run exactly as many times as the channel's capacity (the same value): one token short and a single worker with a buffer of one starts with no token at all - the source is pulled once and nothing is ever yielded; one too many and MapStream blocks before it returns")
+		}
+	}
+	if n == 0 {
+		r.undecided("parallel.MapStream|prefill", fn.Pos(), "no pre-fill of a token channel found in MapStream (or a helper it calls)")
+	}
+}
